@@ -10,7 +10,10 @@
 (*             harness's own listener has logged the Update)                *)
 (*   killed    sessions the harness has killed (Cmd Kill is logged before   *)
 (*             the kill), deadFrom[k] = that line                           *)
-(*   the SET of a line = regd \ killed : sessions registered and alive      *)
+(*   wedged    sessions whose peer (played by the harness) never accepts a  *)
+(*             stream: registered and alive, but they cannot serve          *)
+(*   the SET of a line = (regd \ killed) \ wedged : sessions registered,    *)
+(*             alive and able to serve                                      *)
 (*   lastEmpty the last line at which the set was empty                     *)
 (*   rstart[r], rarr[r]  line at which call r was issued / session whose    *)
 (*             server handler it reached                                    *)
@@ -35,13 +38,13 @@
 EXTENDS Integers, Sequences, FiniteSets, TLC, Json
 Trace == ndJsonDeserialize("trace.ndjson")
 ASSUME TLCSet(1, {})
-VARIABLES l, regd, killed, deadFrom, liveFrom, unregAt, lastEmpty, rstart, rarr
-vars == <<l, regd, killed, deadFrom, liveFrom, unregAt, lastEmpty, rstart, rarr>>
-hv == <<regd, killed, deadFrom, liveFrom, unregAt, rstart, rarr>>
+VARIABLES l, regd, killed, wedged, deadFrom, liveFrom, unregAt, lastEmpty, rstart, rarr
+vars == <<l, regd, killed, wedged, deadFrom, liveFrom, unregAt, lastEmpty, rstart, rarr>>
+hv == <<regd, killed, wedged, deadFrom, liveFrom, unregAt, rstart, rarr>>
 FlagAll(S) == IF S = {} THEN TRUE ELSE TLCSet(1, TLCGet(1) \cup S)
 SetOf(q) == {q[i] : i \in 1..Len(q)}
 Put(f, k, v) == [x \in DOMAIN f \cup {k} |-> IF x = k THEN v ELSE f[x]]
-Init == /\ l = 1 /\ regd = {} /\ killed = {} /\ deadFrom = <<>> /\ liveFrom = <<>> /\ unregAt = <<>> /\ lastEmpty = 0
+Init == /\ l = 1 /\ regd = {} /\ killed = {} /\ wedged = {} /\ deadFrom = <<>> /\ liveFrom = <<>> /\ unregAt = <<>> /\ lastEmpty = 0
         /\ rstart = <<>> /\ rarr = <<>>
 
 OnUpdate(e) ==
@@ -50,7 +53,7 @@ OnUpdate(e) ==
   /\ UNCHANGED liveFrom
   /\ unregAt' = [k \in DOMAIN unregAt \cup (regd \ keys) |-> IF k \in DOMAIN unregAt THEN unregAt[k] ELSE l]
   /\ FlagAll(IF e.can # (keys # {}) THEN {<<l, "cmc", "", Cardinality(keys)>>} ELSE {})
-  /\ UNCHANGED <<killed, deadFrom, rstart, rarr>>
+  /\ UNCHANGED <<killed, wedged, deadFrom, rstart, rarr>>
 
 OnRpcEnd(e) ==
   LET r == e.r
@@ -80,15 +83,16 @@ OnQuiet(e) ==
   /\ UNCHANGED hv
 
 Step(e) ==
-  CASE e.ev = "Config" -> /\ regd' = {} /\ killed' = {} /\ deadFrom' = <<>> /\ liveFrom' = <<>> /\ unregAt' = <<>>
+  CASE e.ev = "Config" -> /\ regd' = {} /\ killed' = {} /\ wedged' = {} /\ deadFrom' = <<>> /\ liveFrom' = <<>> /\ unregAt' = <<>>
                           /\ rstart' = <<>> /\ rarr' = <<>>
     [] e.ev = "Update" -> OnUpdate(e)
     [] e.ev = "Cmd" /\ e.a = "Add" -> /\ liveFrom' = Put(liveFrom, e.k, l)     \* logged before the conn is handed to the pool
+                                       /\ wedged' = (IF e.w THEN wedged \cup {e.k} ELSE wedged)
                                        /\ UNCHANGED <<regd, killed, deadFrom, unregAt, rstart, rarr>>
     [] e.ev = "Cmd" /\ e.a = "Kill" -> /\ killed' = killed \cup {e.k} /\ deadFrom' = Put(deadFrom, e.k, l)
-                                        /\ UNCHANGED <<regd, liveFrom, unregAt, rstart, rarr>>
-    [] e.ev = "RpcStart" -> rstart' = Put(rstart, e.r, l) /\ UNCHANGED <<regd, killed, deadFrom, liveFrom, unregAt, rarr>>
-    [] e.ev = "RpcArrive" -> rarr' = Put(rarr, e.r, e.k) /\ UNCHANGED <<regd, killed, deadFrom, liveFrom, unregAt, rstart>>
+                                        /\ UNCHANGED <<regd, wedged, liveFrom, unregAt, rstart, rarr>>
+    [] e.ev = "RpcStart" -> rstart' = Put(rstart, e.r, l) /\ UNCHANGED <<regd, killed, wedged, deadFrom, liveFrom, unregAt, rarr>>
+    [] e.ev = "RpcArrive" -> rarr' = Put(rarr, e.r, e.k) /\ UNCHANGED <<regd, killed, wedged, deadFrom, liveFrom, unregAt, rstart>>
     [] e.ev = "RpcEnd" -> OnRpcEnd(e)
     [] e.ev = "Quiet" -> OnQuiet(e)
     [] e.ev = "Spread" -> /\ FlagAll(IF ~e.broken /\ ~(SetOf(e.table) \subseteq SetOf(e.served))
@@ -99,7 +103,7 @@ Next == /\ l <= Len(Trace) /\ l' = l + 1
         /\ LET e == Trace[l] IN
            /\ Step(e)
            \* the set after this line
-           /\ lastEmpty' = IF e.ev = "Config" THEN l ELSE IF regd' \ killed' = {} THEN l ELSE lastEmpty
+           /\ lastEmpty' = IF e.ev = "Config" THEN l ELSE IF (regd' \ killed') \ wedged' = {} THEN l ELSE lastEmpty
 Spec == Init /\ [][Next]_vars
 Report == PrintT(<<"OBS_VIOLATIONS", TLCGet(1)>>) /\ PrintT(<<"OBS_TRACE_LEN", Len(Trace)>>)
 =============================================================================
